@@ -24,21 +24,22 @@ namespace BV
 theorem C09_matching_tags (pat : Str) (today : Nat × Nat × Nat) (tags vts : List Str)
     (h : parseVersionTags pat today tags = .ok vts) :
     vts = tags.filter (fun t => isValid t pat today == .ok true) := by
-  sorry
+  exact parseVersionTags_filter pat today tags vts h
 
 /-- no matching tag ↔ no latest tag -/
 theorem C09_latest_none_iff (ts : List Str) : latestOf ts = none ↔ ts = [] := by
-  sorry
+  exact latestOf_none_iff ts
 
 /-- the latest tag is a matching tag and no matching tag is greater (PEP 440 order, C16) -/
 theorem C09_latest_is_max (ts : List Str) (t : Str) (h : latestOf ts = some t) :
     t ∈ ts ∧ ∀ u ∈ ts, pepLe u t = true := by
-  sorry
+  exact latestOf_max ts t h
 
 /-- no tag matches → the config value -/
 theorem C09_no_matching_tag (scope : TagScope) (pat cfgv : Str) (today : Nat × Nat × Nat) (tags : List Str)
     (h : parseVersionTags pat today tags = .ok []) : startVersion scope pat cfgv today tags = .ok cfgv := by
-  sorry
+  rw [startVersion_of_tags h]
+  rfl
 
 /-- scope `default`: the greater of the config value and the greatest matching tag -/
 theorem C09_start_default (pat cfgv : Str) (today : Nat × Nat × Nat) (tags vts : List Str) (s : Str)
@@ -46,7 +47,24 @@ theorem C09_start_default (pat cfgv : Str) (today : Nat × Nat × Nat) (tags vts
     (h : startVersion .default pat cfgv today tags = .ok s) :
     (s = cfgv ∧ ∀ u ∈ vts, pepLe u cfgv = true) ∨
     (s ∈ vts ∧ pepLt cfgv s = true ∧ ∀ u ∈ vts, pepLe u s = true) := by
-  sorry
+  rw [startVersion_of_tags hv] at h
+  split at h
+  · rename_i hn
+    have hnil := (latestOf_none_iff vts).1 hn
+    subst hnil
+    injection h with h
+    exact .inl ⟨h.symm, by simp⟩
+  · rename_i t ht
+    obtain ⟨hmem, hmax⟩ := latestOf_max vts t ht
+    simp only at h
+    split at h
+    · rename_i hle
+      injection h with h
+      exact .inl ⟨h.symm, fun u hu => pepLe_trans (hmax u hu) hle⟩
+    · rename_i hle
+      injection h with h
+      subst h
+      exact .inr ⟨hmem, pepLt_of_not_le (by simpa using hle), hmax⟩
 
 /-- scopes `global` and `branch`: the greatest matching tag of the listing of that scope -/
 theorem C09_start_global_branch (scope : TagScope) (hs : scope ≠ .default) (pat cfgv : Str)
@@ -54,27 +72,58 @@ theorem C09_start_global_branch (scope : TagScope) (hs : scope ≠ .default) (pa
     (hv : parseVersionTags pat today tags = .ok vts) (hne : vts ≠ [])
     (h : startVersion scope pat cfgv today tags = .ok s) :
     s ∈ vts ∧ ∀ u ∈ vts, pepLe u s = true := by
-  sorry
+  rw [startVersion_of_tags hv] at h
+  split at h
+  · rename_i hn
+    exact absurd ((latestOf_none_iff vts).1 hn) hne
+  · rename_i t ht
+    have hst : s = t := by
+      cases scope with
+      | default => exact absurd rfl hs
+      | global => injection h with h; exact h.symm
+      | branch => injection h with h; exact h.symm
+    subst hst
+    exact latestOf_max vts s ht
 
 /-- tags that do not match the pattern never influence the result: inserting such a tag
     anywhere in the listing changes nothing (so any interleaving of junk is irrelevant) -/
 theorem C09_junk_irrelevant (scope : TagScope) (pat cfgv : Str) (today : Nat × Nat × Nat)
     (l1 l2 : List Str) (j : Str) (hj : isValid j pat today = .ok false) :
     startVersion scope pat cfgv today (l1 ++ j :: l2) = startVersion scope pat cfgv today (l1 ++ l2) := by
-  sorry
+  unfold startVersion latestVersionTag
+  rw [parseVersionTags_junk pat today l1 l2 j hj]
 
 /-- … and never break it: if every tag's validity is decided (no `.error`), the start version is defined -/
 theorem C09_never_breaks (scope : TagScope) (pat cfgv : Str) (today : Nat × Nat × Nat) (tags : List Str)
     (h : ∀ t ∈ tags, ∃ b, isValid t pat today = .ok b) :
     ∃ s, startVersion scope pat cfgv today tags = .ok s := by
-  sorry
+  obtain ⟨vts, hv⟩ := parseVersionTags_ok pat today tags h
+  rw [startVersion_of_tags hv]
+  cases latestOf vts with
+  | none => exact ⟨cfgv, rfl⟩
+  | some t =>
+    cases scope with
+    | default =>
+      simp only
+      split
+      · exact ⟨cfgv, rfl⟩
+      · exact ⟨t, rfl⟩
+    | global => exact ⟨t, rfl⟩
+    | branch => exact ⟨t, rfl⟩
 
 /-- when the uniqueness check runs (branch scope or --set-version), an accepted new version is
     not among the matching tags of ANY branch -/
 theorem C09_new_not_a_tag (pat old new : Str) (globalTags vts : List Str) (today : Nat × Nat × Nat)
     (hv : parseVersionTags pat today globalTags = .ok vts)
     (h : gate pat old new true globalTags today = .ok .accept) : new ∉ vts := by
-  sorry
+  obtain ⟨vts', hv', hc⟩ := (gate_accept h).2.2 rfl
+  rw [hv] at hv'
+  injection hv' with hv'
+  subst hv'
+  intro hmem
+  have : vts.contains new = true := List.contains_iff_mem.2 hmem
+  rw [hc] at this
+  cases this
 
 /-- in scopes `default` and `global` (without --ignore-vcs-tag) the announced version is strictly
     greater than every matching tag of the listing, hence equal to none of them -/
@@ -84,7 +133,15 @@ theorem C09_new_above_scope_tags (scope : TagScope) (pat cfgv : Str) (fl : IncrF
     (hv : parseVersionTags pat today scopeTags = .ok vts)
     (h : cliUpdateVersion scope false pat cfgv fl dg date today sv scopeTags globalTags = (.announce new pep, start)) :
     ∀ u ∈ vts, pepLt u new = true ∧ u ≠ new := by
-  sorry
+  obtain ⟨hstart, hgate⟩ := cliUpdateVersion_announce h
+  simp only [Bool.false_eq_true, if_false] at hstart
+  have hlt : pepLt start new = true := pepLt_of_not_le (gate_accept hgate).2.1
+  intro u hu
+  have hul : pepLt u new = true := pepLt_of_le_of_lt (startVersion_ge hv hstart u hu) hlt
+  refine ⟨hul, fun heq => ?_⟩
+  subst heq
+  rw [pepLt_irrefl] at hul
+  cases hul
 
 /-! non-vacuity (order facts only; no regex evaluation in the kernel) -/
 example : latestOf ["1.2.0".toList, "1.10.0".toList, "1.9".toList] = some "1.10.0".toList := by decide +kernel
